@@ -161,6 +161,7 @@ def rule_sh1(ctx):
 # SH2: vectorised helpers preserve the composite (outer) shape
 
 HYP = "geometry_tools/hyperbolic.py"
+LIE = "geometry_tools/lie/core.py"
 
 
 def _outer_shapes(tier):
@@ -680,6 +681,7 @@ def _sh5_table():
     barc3 = dict(cls="BoundaryArc", proj=(3, 3), und=2)
     tv = dict(cls="TangentVector", proj=(2, "n"), aux=(2, "n"), und=2,
               aund=2)
+    tv3 = dict(cls="TangentVector", proj=(2, 3), aux=(2, 3), und=2, aund=2)
     circ = lambda O: (O + (2,), O, O + (2,))
     sph = lambda O: (O + N1, O)
     t = []
@@ -734,7 +736,6 @@ def _sh5_table():
               lambda O: ("obj", O + (2, "n"))))
     t.append(("TangentVector.angle", tv, "angle", ["@same"], {},
               lambda O: O))
-    tv3 = dict(cls="TangentVector", proj=(2, 3), aux=(2, 3), und=2, aund=2)
     t.append(("TangentVector.point_along", tv3, "point_along", ["@outer"],
               {}, lambda O: ("obj", O + (3,))))
     t.append(("TangentVector.origin_to", tv3, "origin_to", [], {},
@@ -777,6 +778,12 @@ def _sh5_table():
               ["Model.KLEIN"], {}, lambda O: O + ("n-1", "n-1")))
     t.append(("Hyperplane.sphere_parameters", hyp_, "sphere_parameters",
               [], {}, lambda O: (O + ("n-1",), O)))
+    fn = dict(cls=None)
+    # (timelike_to / spacelike_to document a single vector: not tabled)
+    t.append(("sl2_iso", fn, "sl2_iso", [dict(arr=(2, 2))], {},
+              lambda O: ("obj", O + (3, 3))))
+    t.append(("TangentVector.isometry_to", tv3, "isometry_to", ["@same"],
+              {}, lambda O: ("obj", O + (3, 3))))
     pt3 = dict(cls="Point", proj=(3,), und=1)
     t.append(("Point.origin_to", pt3, "origin_to", [], {},
               lambda O: ("obj", O + (3, 3))))
@@ -939,10 +946,13 @@ def rule_sh5(ctx, only=None):
     core = ctx.p.module_by_rel(CORE)
     hyp = ctx.p.module_by_rel(HYP)
     proj = ctx.p.module_by_rel(PROJ_REL)
+    lie = ctx.p.module_by_rel(LIE)
     it = Interp(hyp.tree, extra_trees=(("utils", core.tree),
-                                       ("projective", proj.tree)))
+                                       ("projective", proj.tree),
+                                       ("lie", lie.tree)))
     it.project = ctx.p
-    it.rel_prefix = {HYP: "", CORE: "utils", PROJ_REL: "projective"}
+    it.rel_prefix = {HYP: "", CORE: "utils", PROJ_REL: "projective",
+                     LIE: "lie"}
     it.ctor_model = _hyp_ctor
     return _run_object_table(ctx, "SH5", it, _sh5_table(), HYP, only)
 
